@@ -34,14 +34,14 @@ def schedules(k, rnd, tier):
 def part_b(tier, seed, out):
     rnd = random.Random(seed)
     ngc, nobj = (40, 60) if tier == "quick" else (400, 600)
-    base = gen_gc.programs(seed, ngc) + gen_obj.programs(seed + 7, nobj)
+    base = gen_gc.failing_destructor_programs() + gen_gc.programs(seed, ngc) + gen_obj.programs(seed + 7, nobj)
     progs = [(i, p) for i, p in enumerate(base)]
     oracle = semrun.tlc_oracle(progs)
     srcs = {i: bsyntax.render(p) for i, p in progs}
     r0 = runner.run_jobs([{"id": i, "src": srcs[i], "gc": "none"} for i, _ in progs])
     jobs, meta = [], {}
     for i, _ in progs:
-        if r0[i]["status"] != "ok" or not r0[i]["shots"]:
+        if r0[i]["status"] not in ("ok", "runtime") or not r0[i]["shots"]:
             continue
         k = max(1, min(r0[i]["shots"][0].get("stmts", 1), 4000))
         for sched in schedules(k, rnd, tier):
@@ -66,6 +66,53 @@ def part_b(tier, seed, out):
                                                          "interpreter": res[jid]}, "sched%d" % jid)
     return {"programs": len(base), "runs": len(jobs), "collections_executed": collections_run, "objects_cleared_by_collector": cleared,
             "sample": {"schedule": meta[5][1], "program": srcs[meta[5][0]][-700:]}}, len(bad)
+
+
+DEEP = """class Stats {{ public static int freed = 0; public constructor() -> Stats = default; }}
+class Node {{ public Node next; public Node down; public int val;
+  public constructor(int v, Node n) -> Node {{ this.val = v; this.next = n; }}
+  public destructor() -> void {{ Stats.freed = Stats.freed + 1; }} }}
+function build(int n) -> Node {{ Node head = null; for (int i = 1; i <= n; i = i + 1) {{ head = new Node(i, head); {side} }} return head; }}
+function main() -> void {{
+  Node head = build({n});
+  int sum = 0; int count = 0; Node cur = head;
+  while (cur != null) {{ sum = sum + cur.val; count = count + 1; cur = cur.next; }}
+  echo(count); echo(sum); echo(Stats.freed);
+  cur = null; head = null;
+  echo(Stats.freed);
+}}
+"""
+
+
+def deep_family(tier, out):
+    """structures far deeper than any the reference's fuel admits (a list of n nodes hanging from one local), alive while
+    collections run: the output is known in closed form (count n, sum n(n+1)/2, no destructor before the list is dropped,
+    n after) and must not depend on the schedule."""
+    jobs, meta = [], {}
+    for n in ((120, 450, 900) if tier == "quick" else (120, 390, 450, 900, 1400)):
+        for side in ("", "Node tmp = new Node(0, null); tmp = null;"):
+            src = DEEP.format(n=n, side=side)
+            extra = n if side else 0
+            want = [str(n), str(n * (n + 1) // 2), str(extra), str(n + extra)]
+            for sched in ("none", "pressure", "at:%d" % (3 * n), "at:%d,%d" % (2 * n, 4 * n), "at:%d" % (5 * n + 8)):
+                jid = len(jobs)
+                meta[jid] = (n, side, sched, want, src)
+                jobs.append({"id": jid, "src": src, "gc": sched, "want": ["events"], "timeout_ms": 120000})
+    res = runner.run_jobs(jobs)
+    bad = 0
+    ncoll = 0
+    for jid, (n, side, sched, want, src) in meta.items():
+        r = res[jid]
+        got = r["shots"][0]["echo"] if r.get("status") == "ok" and r.get("shots") and r["shots"][0]["status"] == "ok" else None
+        if r.get("shots"):
+            ncoll += sum(1 for e in r["shots"][0].get("events", []) if e["e"] == "collect")
+        if got != want:
+            bad += 1
+            if bad <= 3:
+                what = "list of %d live nodes, schedule %s: expected output %s, interpreter %s" % (
+                    n, sched, want, got if got is not None else (r.get("status"), (r.get("shots") or [{}])[0].get("what", r.get("what"))))
+                out.violation(what, {"what": what, "schedule": sched, "program": src, "interpreter": r}, "deep%d" % jid)
+    return {"runs": len(jobs), "collections_executed": ncoll}, bad
 
 
 def part_a(tier, seed, out):
@@ -199,6 +246,9 @@ def run(tier, seed):
     out = vlib.Outcome(PID)
     b, nb = part_b(tier, seed, out)
     a, na = part_a(tier, seed, out)
+    dp, nd = deep_family(tier, out)
+    nb += nd
+    b["deep_structures"] = dp
     cov = {"states": sum(m["distinct"] for m in a["protocol_models"]) + a["trace_states"],
            "transitions": sum(m["generated"] for m in a["protocol_models"]),
            "traces_validated_against_impl": a["logs_validated"],
@@ -206,7 +256,8 @@ def run(tier, seed):
            "rule": "(b) object-allocating programs (pending arguments, objects under construction, returned temporaries, temporary receivers, "
                    "cyclic garbage, allocation pressure; plus the C08 generator) each run under: no collection, a collection at every statement "
                    "boundary, the program-driven pressure rule, every single boundary (sampled above 16/64), and random subsets; every run must "
-                   "print exactly the reference output of BlochSem, which has no collector. (a) GcProtocol.tla (timer x interpreter x stop/join) "
+                   "print exactly the reference output of BlochSem, which has no collector; lists of 120..1400 live nodes (beyond the reference's fuel; "
+                   "output known in closed form) under pressure and single/double collections while the list is alive. (a) GcProtocol.tla (timer x interpreter x stop/join) "
                    "is model-checked (OnlyInterpreterCollects, StoppedAtEnd, TimerTouchesOnlyFlag, termination under fairness, every subset of "
                    "boundaries reachable as collection points); real runs with the real timer thread (1 ms period) under ThreadSanitizer, one in "
                    "four ending in a runtime error, must be race-free and their event logs (thread-tagged tick/request/collect/timer_exit/join) "
